@@ -58,8 +58,10 @@ FRESH_METHODS = {
 }
 # popleft/pop return an element: handled as element read in alias.py
 FRESH_METHODS -= {"popleft", "pop"}
+# d.get(k), d.values(), d.items() hand out the objects stored in the mapping, not new ones
+FRESH_METHODS -= {"get", "values", "items"}
 VIEW_METHODS = {"reshape", "ravel", "transpose", "view", "squeeze", "diagonal", "flatten_view",
-                "swapaxes", "__getitem__"}
+                "swapaxes", "__getitem__", "get", "values", "items"}
 # flatten() is a copy
 FRESH_METHODS |= {"flatten"}
 
